@@ -25,6 +25,9 @@
 (*   answer  msg: what Generate returned / what the Stream chunks          *)
 (*           concatenate to                                                *)
 (*   error   steplimit BOOLEAN                                             *)
+(*   early   released BOOLEAN: a third run in which the caller read one    *)
+(*           chunk of the streamed answer and closed the stream; were the  *)
+(*           producer goroutines of the (pipe-backed) model released?      *)
 (*   hang    the case was still running when the harness's watchdog fired  *)
 (*   endrun, end                                                           *)
 (*                                                                         *)
@@ -42,7 +45,9 @@
 (*   A4 never more than MaxStep supersteps (model call, tools round,       *)
 (*      direct return each count one); the step-limit error is returned    *)
 (*      exactly when the next superstep would exceed it; no other error;   *)
-(*   A5 Generate and Stream give the same answer.                          *)
+(*   A5 Generate and Stream give the same answer;                          *)
+(*   A6 when the caller closes the streamed answer early, nothing of the   *)
+(*      agent keeps the model's stream open: its producer is released.     *)
 (* Default MaxStep: number of nodes + 10 as documented at AgentConfig      *)
 (* (12; 13 when a return-directly set adds the direct-return node).        *)
 (***************************************************************************)
@@ -151,6 +156,10 @@ Apply(S, e) ==
          [] e.ev = "answer" -> AnswerRule(S, e)
          [] e.ev = "error" -> ErrorRule(S, e)
          [] e.ev = "endrun" -> EndRunRule(S, e)
+         \* A6 (the agent's part of C19): after the caller closed the agent's output stream early, the model's producer is released
+         [] e.ev = "early" -> IF S.inrun THEN Bad(S, "early-close-probe-inside-a-run")
+                              ELSE IF ~e.released THEN Bad(S, "model-producer-not-released-after-the-caller-closed-the-stream")
+                              ELSE S
          [] e.ev = "hang" -> Bad(S, "agent-hangs")     \* "and stops": spec/ReAct.tla satisfies Terminates for every script
          [] e.ev = "end" -> IF S.inrun THEN Bad([S EXCEPT !.open = FALSE], "case-ended-inside-a-run")
                             ELSE IF S.nruns = 0 THEN Bad([S EXCEPT !.open = FALSE], "case-without-a-run")
